@@ -1,0 +1,55 @@
+//go:build verif
+
+// Contracts for the deductive verifier under /verif (comment-only file).
+package caching
+
+// ---- type-keyed open-addressing program map (C09) ----
+// Keys are type identities (pointers), never hashes or names.  The number of
+// cached types is assumed to stay below 2^30 (capacity doubling would wrap uint32).
+//@ pure func pmShape(m *_ProgramMap) bool = m != nil && len(m.b) == int(m.m) + 1 && len(m.b) >= 1 && m.m <= 1073741823
+//@ pure func pmHas(m *_ProgramMap, k *rt.GoType, v interface{}) bool = exists i int :: 0 <= i && i < len(m.b) && m.b[i].vt == k && m.b[i].fn == v
+//@ pure func pmFree(m *_ProgramMap) bool = exists i int :: 0 <= i && i < len(m.b) && m.b[i].vt == nil
+
+// get: a hit returns the codec stored under exactly this type (pointer identity);
+// it never returns a codec stored under another key.
+//@ func (*_ProgramMap).get props C09
+//@   requires pmShape(self) && vt != nil
+//@   ensures result != nil ==> pmHas(self, vt, result)
+//@   loop 0: invariant 0 <= p && p <= self.m && i <= self.m + 1
+//@   loop 0: decreases i
+
+// mask arithmetic: for m = 2^k - 1, x & m == x mod (m+1).  Used in int mode as an
+// axiom; the same fact is proved bit-precisely as lemma mask_and_is_mod_bv.
+//@ pure func isMask(m uint32) bool
+//@ axiom mask_and_is_mod: forall x uint32, m uint32 :: isMask(m) ==> (x & m) == x % (m + 1)
+//@ axiom mask_init: isMask(4095)
+//@ axiom mask_double: forall m uint32 :: isMask(m) ==> isMask(2 * m + 1)
+//@ lemma mask_and_is_mod_bv props C09 mode bv: forall x uint32, m uint32 :: ((m & (m + 1)) == 0 && m != 0xFFFFFFFF) ==> (x & m) == x % (m + 1)
+
+// insert: exactly one previously empty slot receives (vt, fn); every other slot,
+// and therefore every other binding, is unchanged; n is incremented.  The probe
+// visits every slot, so with a free slot the "no available slots" panic is unreachable.
+//@ func (*_ProgramMap).insert props C09
+//@   requires pmShape(self) && isMask(self.m) && vt != nil && pmFree(self) && self.n < 4611686018427387904
+//@   modifies self.n, self.b[_]
+//@   ensures pmShape(self) && self.m == old(self.m) && same(self.b, old(self.b)) && self.n == old(self.n) + 1
+//@   ensures exists q int :: 0 <= q && q < len(self.b) && old(self.b[q].vt) == nil && self.b[q].vt == vt && self.b[q].fn == fn && (forall j int :: 0 <= j && j < len(self.b) && j != q ==> same(self.b[j], old(self.b[j])))
+//@   loop 0: invariant 0 <= p && p <= self.m && i <= self.m + 1 && pmShape(self) && self.m == old(self.m) && same(self.b, old(self.b)) && self.n == old(self.n)
+//@   loop 0: invariant forall j int :: 0 <= j && j < len(self.b) ==> same(self.b[j], old(self.b[j]))
+//@   loop 0: invariant int(p) == ite(int(h & self.m) + int(i) < len(self.b), int(h & self.m) + int(i), int(h & self.m) + int(i) - len(self.b))
+//@   loop 0: invariant forall j int :: (0 <= j && j < len(self.b) && ite(int(h & self.m) + int(i) < len(self.b), int(h & self.m) <= j && j < int(h & self.m) + int(i), j >= int(h & self.m) || j < int(h & self.m) + int(i) - len(self.b))) ==> self.b[j].vt != nil
+//@   loop 0: decreases self.m + 1 - i
+
+// copy: a structurally equal, freshly allocated map; the original is untouched
+// (copy-on-write: the published map is never written).
+//@ func (*_ProgramMap).copy props C09,C08
+//@   requires pmShape(self)
+//@   ensures result != nil && fresh(result) && fresh(result.b) && pmShape(result) && result.m == self.m && result.n == self.n && len(result.b) == len(self.b)
+//@   ensures forall j int :: 0 <= j && j < len(self.b) ==> same(result.b[j], self.b[j])
+//@   ensures forall j int :: 0 <= j && j < len(self.b) ==> same(self.b[j], old(self.b[j]))
+//@   loop 0: invariant -1 <= rangeindex && rangeindex <= len(self.b) - 1
+//@   loop 0: invariant fork != nil && fresh(fork) && fresh(fork.b) && len(fork.b) == len(self.b) && fork.m == self.m && fork.n == self.n && base(fork.b) != base(self.b) && off(fork.b) == 0
+//@   loop 0: invariant forall j int :: 0 <= j && j <= rangeindex ==> same(fork.b[j], self.b[j])
+//@   loop 0: invariant forall j int :: 0 <= j && j < len(self.b) ==> same(self.b[j], old(self.b[j]))
+//@   loop 0: modifies fork.b[_]
+//@   loop 0: decreases len(self.b) - rangeindex
